@@ -41,6 +41,9 @@ static void build(void) {
       add(tier, 3, SEQ1[a], SEQ1[b], SEQ1[c], 0, 2, tier ? 2 : 1);
       if (tier) add(tier, 3, SEQ1[a], SEQ1[b], SEQ1[c], 0, 3, 2);
     }
+    /* one worker, three contenders: whoever cannot get the mutex must give the worker back (a contender that
+       busy-waits instead of blocking starves the holder for ever) */
+    add(tier, 3, "Y", "L", "L", 0, 1, tier ? 2 : 1); add(tier, 3, "Y", "Y", "L", 0, 1, 1); add(tier, 3, "L", "Y", "T", 0, 1, 1); add(tier, 3, "Y", "L", "D", 0, 1, 1);
     /* bystander must make progress while a contender is blocked */
     add(tier, 2, "Y", "L", 0, 1, 1, K); add(tier, 2, "Y", "L", 0, 1, 2, 2); add(tier, 2, "YY", "LL", 0, 1, 1, 2);
     add(tier, 2, "Y", "LT", 0, 1, 2, tier ? 2 : 1);
@@ -96,7 +99,7 @@ static void * contender(void * a) {
       (void)steps0;
       break; }
     case 'D': {
-      struct timespec dl; mv_clock_read(&dl);
+      struct timespec dl, t_start; mv_clock_read(&dl); t_start = dl;
       dl.tv_nsec += 4000; /* four ticks of the virtual clock */
       busy++; starts++;
       r = myth_mutex_timedlock(&mtx, &dl);
@@ -105,6 +108,10 @@ static void * contender(void * a) {
 	struct timespec nowts; mv_clock_read(&nowts);
 	timedout[me]++; mv_cover(3);
 	MV_CHECK(nowts.tv_sec > dl.tv_sec || (nowts.tv_sec == dl.tv_sec && nowts.tv_nsec > dl.tv_nsec), "timedlock gave up before its deadline");
+	/* one worker, the only other contender holds the mutex across one yield: each round of the timed wait must hand the
+	   worker to that runnable holder, so (without a clock jump) an attempt before the deadline finds the mutex free */
+	MV_CHECK(!(cur->W == 1 && cur->nth == 2 && !cur->bystander && !strcmp(cur->seq[1 - me], "Y") && !strcmp(cur->seq[me], "D") && nowts.tv_sec == t_start.tv_sec),
+		 "timedlock timed out on one worker although the runnable holder only needed the worker once to release (a waiting thread must not keep the worker to itself)");
 	busy--;
       } else { mv_cover(2); cs(me, 0); myth_mutex_unlock(&mtx); busy--; }
       break; }
